@@ -1652,11 +1652,6 @@ impl Fsm {
                     continue;
                 }
 
-                if externalEvent.name.starts_with(EVENT_DONE_INVOKE_PREFIX) {
-                    if let Some(invoke_id) = &externalEvent.invoke_id {
-                        get_global!(datamodel).child_sessions.remove(invoke_id);
-                    }
-                }
             }
             let mut toFinalize: Vec<ExecutableContentId> = Vec::new();
             let mut toForward: Vec<InvokeId> = Vec::new();
@@ -1684,6 +1679,13 @@ impl Fsm {
                         }
                     }
                 };
+            }
+            // The child is finished: forget it, but only after its <finalize> block was looked up above
+            // (finalize applies to the done.invoke event too).
+            if externalEvent.name.starts_with(EVENT_DONE_INVOKE_PREFIX) {
+                if let Some(invoke_id) = &externalEvent.invoke_id {
+                    get_global!(datamodel).child_sessions.remove(invoke_id);
+                }
             }
             datamodel.set_event(&externalEvent);
             for finalizeContentId in toFinalize {
